@@ -70,7 +70,7 @@ FB_SPECS = node_specs("FunctionBody", "n_fb", [("parameters_parentheses", "Conta
 #[cfg(feature = "luau")] pub assume_specification [FunctionBody::with_type_specifiers] (n: FunctionBody, v: Vec<Option<full_moon::ast::luau::TypeSpecifier>>) -> (r: FunctionBody) ensures n_fb_block(&r) == n_fb_block(&n);
 #[cfg(feature = "luau")] pub assume_specification [FunctionBody::with_return_type] (n: FunctionBody, v: Option<full_moon::ast::luau::TypeSpecifier>) -> (r: FunctionBody) ensures n_fb_block(&r) == n_fb_block(&n);
 """
-SPEC = SPEC_A.replace("@@FBSPECS@@", FB_SPECS).replace("@@IFSPECS@@", node_specs("If", "n_if", [("if_token", "TokenReference", "-"), ("condition", "Expression", "ref"), ("then_token", "TokenReference", "-"), ("block", "Block", "ref"),
+SPEC = SPEC_A.replace("@@FBSPECS@@", FB_SPECS).replace("@@IFSPECS@@", node_specs("If", "n_if", [("if_token", "TokenReference", "ref"), ("condition", "Expression", "ref"), ("then_token", "TokenReference", "ref"), ("block", "Block", "ref"),
     ("else_if", "Vec<ElseIf>", "opt"), ("else_token", "TokenReference", "opt"), ("else_block", "Block", "opt", "with_else"), ("end_token", "TokenReference", "-")]))
 
 WRAP = r"""
@@ -112,7 +112,7 @@ def items():
 """, edits=stmts_holes()),
         Fn(STM, "is_if_guard", contract="""
     ensures r ==> n_if_else_if(if_node) is None && n_if_else_block(if_node) is None && one_simple_statement(&n_if_block(if_node)), //# C02.if_guard_is_one_statement
-            r ==> !has_comments(NodeKey::Other(other_key(n_if_block(if_node)))), //# C03.if_guard_has_no_comments
+            r ==> !has_comments(NodeKey::Other(other_key(n_if_block(if_node)))) && !has_comments(NodeKey::Other(other_key(n_if_then_token(if_node)))), //# C03.if_guard_has_no_comments
 """),
         Fn(CTX, "should_collapse_simple_functions", impl_of="Context", mode="stub", proved_in="ctx"),
         Fn(CTX, "should_collapse_simple_conditionals", impl_of="Context", mode="stub", proved_in="ctx"),
@@ -146,7 +146,8 @@ impl UpdateTrivia for LastStmt {
 }
 """),
         Item(GEN, "enum", "EndTokenType"),
-        Fn(GEN, "format_symbol", mode="stub"),
+        Fn(GEN, "format_symbol", mode="stub", proved_in="tok", contract="ensures tok_open(r) ==> tok_open(*current_symbol) || tok_open(*wanted_symbol),",
+           note="a formatted symbol is followed by a line comment only if the source token (or the wanted symbol) was (tok: C01.symbol_open_only_if_source)"),
         Fn(GEN, "format_end_token", mode="stub"),
         Fn(EX, "format_expression", mode="stub", proved_in="expr", contract="requires wf(skel(*expression)), ensures erase(skel(r)) == erase(skel(*expression)),"),
         Fn(EX, "hang_expression_trailing_newline", mode="stub", proved_in="expr", contract="requires wf(skel(*expression)), ensures erase(skel(r)) == erase(skel(*expression)),"),
@@ -161,6 +162,7 @@ impl UpdateTrivia for LastStmt {
              wf(skel(n_if_condition(if_node))),
     ensures same_census(if_node, &r), //# C02.format_if_keeps_statements
             same_condition(n_if_condition(if_node), n_if_condition(&r)), //# C02.format_if_keeps_condition
+            !tok_open(n_if_if_token(&r)), //# C01.if_keyword_closed
 """, edits=[
             DebugAsserts(),
             Hole('const IF_LEN: usize = "if ".len();', "let IF_LEN: usize = hole_usize();", why="str::len in a const: a width, used for layout only"),
@@ -211,10 +213,11 @@ impl UpdateTrailingTrivia for LastStmt {
 LABELS = {
     "C02.empty_block_is_empty": dict(props=["C02"], text="is_block_empty: true exactly for a block without statement and without last statement"),
     "C02.if_guard_is_one_statement": dict(props=["C02", "C07"], text="is_if_guard: an `if` that is collapsed has no elseif / else and exactly one statement of a printable kind in its body"),
-    "C03.if_guard_has_no_comments": dict(props=["C03"], text="is_if_guard: an `if` that is collapsed has no comment in its body (the one-line form replaces the statement's trivia)"),
+    "C03.if_guard_has_no_comments": dict(props=["C03"], text="is_if_guard: an `if` that is collapsed has no comment in its body (the one-line form replaces the statement's trivia) and none on `then` (a line comment there would swallow the body)"),
     "C02.collapsed_function_is_one_statement": dict(props=["C02", "C07"], text="should_collapse_function_body: a function body that is collapsed is empty or one statement of a printable kind"),
     "C03.collapsed_function_has_no_comments": dict(props=["C03", "C01"], text="should_collapse_function_body: a function body that is collapsed has no comment in the body, behind `)` or in front of `end`"),
     "C02.function_body_keeps_statements": dict(props=["C02", "C07"], text="format_function_body: on one line or not, the body of the result has the same number of statements and the same presence of a last statement as the input's (the one-line branch rebuilds the block from its single statement; its `unreachable!` and the precondition of format_stmt_no_trivia follow from should_collapse_function_body)"),
+    "C01.if_keyword_closed": dict(props=["C01", "C02"], text="format_if: a line comment behind the `if` keyword is always followed by a line break (the header goes multiline; an if guard is not collapsed then), so the condition is never printed inside the comment"),
     "C02.format_if_keeps_condition": dict(props=["C02"], text="format_if: the condition is the input's, modulo its top-level parentheses and redundant ones (one-line, single-line and hanging layout)"),
     "C02.format_if_keeps_statements": dict(props=["C02"], text="format_if: collapsed or not, the result has the same number of statements (and the same presence of a last statement) in its body and in its else block, and the same elseif / else branches"),
     "C02.simple_block_is_one_statement": dict(props=["C02", "C07"], text="is_block_simple: a block that counts as simple consists of exactly one statement — a last statement, or one assignment / local assignment / call / goto (the kinds the one-line path can print) — and nothing else"),
